@@ -8,13 +8,14 @@ pub const TOL: f64 = 1e-9;
 /// once an inexact (tolerance-checked) function has been applied, a sum that cancels amplifies its
 /// error without bound: such results are outside what the tolerance can decide
 pub fn ill_conditioned(fl: &Flags, a: f64, b: f64, r: f64) -> R<()> {
+    if fl.scope_only.get() { return Ok(()); }
     if fl.tol.get() > 0.0 && r.is_finite() && r.abs() < 1e-3 * a.abs().max(b.abs()) { Err(Stop::Unspec("CancellationAfterInexactOperation")) } else { Ok(()) }
 }
 
 /// a discontinuous function applied to an operand that is only known within a tolerance cannot be
 /// decided when the operand lies at the discontinuity
 pub fn at_discontinuity(fl: &Flags, x: f64, kind: &str) -> R<()> {
-    if fl.tol.get() == 0.0 || !x.is_finite() { return Ok(()); }
+    if fl.tol.get() == 0.0 || !x.is_finite() || fl.scope_only.get() { return Ok(()); }
     let eps = 1e-6 * (1.0 + x.abs());
     let near_int = (x - x.round()).abs() < eps;
     let near_half = ((x - 0.5) - (x - 0.5).round()).abs() < eps;
@@ -25,6 +26,7 @@ pub fn at_discontinuity(fl: &Flags, x: f64, kind: &str) -> R<()> {
 /// functions that amplify the relative error of an inexact operand by its magnitude (exp, powers with
 /// large exponents, circular functions of large arguments): outside what a fixed tolerance can decide
 pub fn amplifies(fl: &Flags, magnitude: f64) -> R<()> {
+    if fl.scope_only.get() { return Ok(()); }
     if fl.tol.get() > 0.0 && !(magnitude.abs() <= 1e3) { Err(Stop::Unspec("ErrorAmplificationAfterInexactOperation")) } else { Ok(()) }
 }
 
@@ -146,8 +148,8 @@ pub fn fn2_f64(func: &str, a: f64, b: f64, fl: &Flags) -> R<f64> {
     let t = |v: f64| -> R<f64> { fl.inexact(TOL); near_overflow(v) };
     if func == "Pow" || func == "Root" { amplifies(fl, if func == "Pow" { b } else { 1.0 / a })?; }
     match func {
-        "Mod" => { if fl.tol.get() > 0.0 { return Err(Stop::Unspec("RemainderOfInexactOperand")); } Ok(a % b) }
-        "Pow" => Ok(a.powf(b)),
+        "Mod" => { if fl.tol.get() > 0.0 && !fl.scope_only.get() { return Err(Stop::Unspec("RemainderOfInexactOperand")); } Ok(a % b) }
+        "Pow" => { if a.fract() == 0.0 && b.fract() == 0.0 && b < 0.0 { fl.int_negpow.set(true); } Ok(a.powf(b)) }
         "Atan2" => t(a.atan2(b)),
         "Log" => t(a.ln() / b.ln()),
         "Root" => t(b.powf(1.0 / a)),
@@ -164,6 +166,11 @@ impl Sem for F64Sem {
         t.parse::<f64>().map_err(|_| Stop::Err("malformed literal"))
     }
     fn ans(&self) -> f64 { self.ph }
+    fn observe(&self, v: &f64) {
+        let fl = &self.flags;
+        if !v.is_finite() { fl.saw_nonfinite.set(true); } else if v.abs() > fl.max_abs.get() { fl.max_abs.set(v.abs()); }
+        if *v == 0.0 && v.is_sign_negative() { fl.saw_negzero.set(true); }
+    }
     fn konst(&self, name: &str) -> R<f64> { Ok(if name == "PI" { std::f64::consts::PI } else { std::f64::consts::E }) }
     fn zero(&self) -> f64 { 0.0 }
     fn un(&self, op: &str, a: f64) -> R<f64> {
@@ -181,8 +188,8 @@ impl Sem for F64Sem {
         match op {
             "add" | "sub" => { let r = if op == "add" { a + b } else { a - b }; ill_conditioned(&self.flags, a, b, r)?; Ok(r) }
             "mul" => Ok(a * b), "div" => Ok(a / b),
-            "mod" => { if self.flags.tol.get() > 0.0 { return Err(Stop::Unspec("RemainderOfInexactOperand")); } Ok(a % b) }
-            "pow" => { amplifies(&self.flags, b)?; Ok(a.powf(b)) }
+            "mod" => { if self.flags.tol.get() > 0.0 && !self.flags.scope_only.get() { return Err(Stop::Unspec("RemainderOfInexactOperand")); } Ok(a % b) }
+            "pow" => { amplifies(&self.flags, b)?; if a.fract() == 0.0 && b.fract() == 0.0 && b < 0.0 { self.flags.int_negpow.set(true); } Ok(a.powf(b)) }
             _ => Err(Stop::Unspec("UnknownBinary")),
         }
     }
